@@ -86,7 +86,24 @@ def scenarios(verdict, exe, res, extra, tag):
                       "parsebuf c1 %s" % enc('include("missing.conf")'),
                       "parsebuf c1 %s" % enc('include("d1")'), "free c1"]
     scripts.append(("sc1", "\n".join(lines)))
+    lines = schema + ["init c1 S 0", "fs dir $R/da", "fs dir $R/db", "fs file $R/db/onlyb.conf %s" % enc("x = 42"),
+                      "fs file $R/da/ina.conf %s" % enc("x = 41"),
+                      "searchpath c1 $R/da", "parsebuf c1 %s" % enc('sec { include("ina.conf") }'),
+                      "searchpath c1 $R/db", "parsebuf c1 %s" % enc('sec { include("onlyb.conf") }'),
+                      "free c1"]
+    scripts.append(("sc2", "\n".join(lines)))
     results = run_behaviours(exe, scripts, tag + "sc", per_timeout=30)
+    g = results["sc2"]
+    verdict.cov["traces_validated_against_impl"] += 1
+    if g["crash"]:
+        verdict.violation("include:scenario-late-searchpath:%s" % g["crash"]["kind"], "search path extended between parses: %s" % g["crash"]["detail"][:800], {})
+    else:
+        pl = [l for l in g["lines"] if l["cmd"] == "parsebuf"]
+        xs = [[o for o in [s0 for s0 in l["ctx"]["c1"]["o"] if s0["n"] == "sec"][0]["v"][0]["o"] if o["n"] == "x"][0]["v"] for l in pl]
+        if [l["ret"] for l in pl] != [0, 0] or xs != [["41"], ["42"]]:
+            verdict.violation("include:scenario-late-searchpath",
+                              "a directory added to the search path after the first parse is not used by include() inside a section that "
+                              "was already entered once: return codes %s, sec|x = %s (expected [0, 0], 41 then 42)" % ([l["ret"] for l in pl], xs), {})
     g = results["sc0"]
     verdict.cov["traces_validated_against_impl"] += 2
     if g["crash"]:
